@@ -619,11 +619,23 @@ type reverseSegmentScanner struct {
 // newReverseSegmentScanner creates a scanner that iterates from the given
 // offset backwards.
 func newReverseSegmentScanner(segment *segment, startOffset int64) *reverseSegmentScanner {
-	// Convert log offset to index entry offset
-	entryOffset := startOffset - segment.BaseOffset
+	// Find the index entry to start at: the last entry whose offset is less
+	// than or equal to the start offset. Offsets within a segment are not
+	// necessarily contiguous (compaction leaves gaps), so the position in the
+	// index has to be searched rather than computed from the base offset.
+	var (
+		e = &entry{}
+		n = int(segment.Index.CountEntries())
+	)
+	idx := sort.Search(n, func(i int) bool {
+		if err := segment.Index.ReadEntryAtLogOffset(e, int64(i)); err != nil {
+			return true
+		}
+		return e.Offset > startOffset
+	})
 	return &reverseSegmentScanner{
 		s:   segment,
-		ris: newReverseIndexScanner(segment.Index, entryOffset),
+		ris: newReverseIndexScanner(segment.Index, int64(idx)-1),
 	}
 }
 
